@@ -126,6 +126,7 @@ class AbstractFileSystem(DictType):
         self.fmtime[_key] = self.get_mtime(fname)
 
     def __delitem__(self, key):
+        key = self.key_conv.serialize(key)
         fname = os.path.join(self.fdir, key)
         if fname.endswith(".lock"):
             if os.path.isfile(fname):
@@ -257,7 +258,7 @@ class AbstractFileSystem(DictType):
             return
 
         for f in os.listdir(self.fdir):
-            del self[f]
+            del self[self.key_conv.deserialize(f)]
 
     def update(self, ava):
         """
